@@ -187,13 +187,19 @@ func (lv *LeafVariants) GetHighestPrecedence(onlyNewOrUpdated bool, includeDefau
 	if len(lv.les) == 0 {
 		return nil
 	}
-	if onlyNewOrUpdated && lv.shouldDelete() {
+	// if all the intents leave, the leaf is deleted as a whole (also its running value does not remain)
+	if lv.shouldDelete() {
 		return nil
 	}
 
 	var highest *LeafEntry
 	var secondHighest *LeafEntry
 	for _, e := range lv.les {
+		// if the complete view is requested (not only what is new or updated), entries that
+		// are marked for deletion will not exist any longer, hence they are not considered.
+		if !onlyNewOrUpdated && e.GetDeleteFlag() {
+			continue
+		}
 		// first entry set result to it
 		// if it is not marked for deletion
 		if highest == nil {
@@ -212,6 +218,10 @@ func (lv *LeafVariants) GetHighestPrecedence(onlyNewOrUpdated bool, includeDefau
 				secondHighest = e
 			}
 		}
+	}
+
+	if highest == nil {
+		return nil
 	}
 
 	// do not include defaults loaded at validation time
